@@ -61,6 +61,9 @@ func codecOf(n ast.Node) string {
 				json = true
 			case s == "proto.Marshal", s == "proto.Unmarshal", s == "bindDataFromBinaryRequest":
 				bin = true
+			case strings.HasPrefix(s, "proto.MarshalOptions{") || strings.HasPrefix(s, "proto.UnmarshalOptions{") || strings.HasPrefix(s, "(proto.MarshalOptions{") || strings.HasPrefix(s, "(proto.UnmarshalOptions{"):
+				// proto.MarshalOptions{…}.Marshal / MarshalAppend, proto.UnmarshalOptions{…}.Unmarshal: the binary wire codec
+				bin = true
 			}
 		}
 		return true
